@@ -47,19 +47,70 @@ Qed.
 Lemma log2_pow : forall n : nat, log2 (2 ^ n) = INR n.
 Proof.
   intro n. unfold log2. rewrite ln_pow by lra.
-  field. interval.
+  field. interval with (i_prec 64).
 Qed.
+
+(* tanh of a large argument: exp x is out of reach for interval evaluation
+   (and irrelevant): tanh x is within 1e-17 of 1 from x = 20 on *)
+Lemma tanh_big_pos : forall x, 20 <= x -> 0 <= 1 - tanh x <= 1 / 10 ^ 17.
+Proof.
+  intros x Hx. unfold tanh, sinh, cosh.
+  pose proof (exp_pos x) as Ha. pose proof (exp_pos (- x)) as Hb.
+  assert (Hab : exp x * exp (- x) = 1) by (rewrite <- exp_plus, Rplus_opp_r; apply exp_0).
+  assert (Hb40 : exp (- x) <= exp (- 20)).
+  { destruct (Rle_lt_or_eq_dec 20 x Hx) as [Hlt|Heq].
+    - left. apply exp_increasing. lra.
+    - subst x. right. reflexivity. }
+  assert (He : exp (- 20) <= 21 / 10 ^ 10) by (interval with (i_prec 64)).
+  assert (H1 : 1 <= exp x).
+  { left. rewrite <- exp_0. apply exp_increasing. lra. }
+  set (a := exp x) in *. set (b := exp (- x)) in *.
+  replace (1 - (a - b) / 2 / ((a + b) / 2)) with (2 * b / (a + b)) by (field; lra).
+  split.
+  - apply Rmult_le_pos; [lra|]. left. apply Rinv_0_lt_compat. lra.
+  - apply Rmult_le_reg_r with (a + b); [lra|].
+    unfold Rdiv. rewrite Rmult_assoc, Rinv_l by lra.
+    assert (b <= 21 / 10 ^ 10) by lra.
+    assert (Hbb : b * b <= (21 / 10 ^ 10) * (21 / 10 ^ 10)) by (apply Rmult_le_compat; lra).
+    (* 2b = 2b * (a*b) = 2 b^2 a *)
+    assert (2 * b = 2 * (b * b) * a) by (rewrite <- (Rmult_1_r (2 * b)) at 1; rewrite <- Hab; ring).
+    nra.
+Qed.
+
+Lemma tanh_opp : forall x, tanh (- x) = - tanh x.
+Proof. intro x. unfold tanh, sinh, cosh. rewrite Ropp_involutive. field.
+  pose proof (exp_pos x). pose proof (exp_pos (- x)). lra. Qed.
+
+Lemma tanh_big : forall x r eps, 20 <= x -> Rabs (1 - r) + 1 / 10 ^ 17 <= eps -> Rabs (tanh x - r) <= eps.
+Proof.
+  intros x r eps Hx He. pose proof (tanh_big_pos x Hx) as [H0 H1].
+  replace (tanh x - r) with ((1 - r) - (1 - tanh x)) by ring.
+  eapply Rle_trans; [apply Rabs_triang|].
+  rewrite Rabs_Ropp, (Rabs_right (1 - tanh x)) by lra. lra.
+Qed.
+
+Lemma tanh_big_neg : forall x r eps, x <= -20 -> Rabs (-1 - r) + 1 / 10 ^ 17 <= eps -> Rabs (tanh x - r) <= eps.
+Proof.
+  intros x r eps Hx He. pose proof (tanh_big_pos (- x) ltac:(lra)) as [H0 H1].
+  rewrite tanh_opp in *.
+  replace (tanh x - r) with ((-1 - r) + (1 + tanh x)) by ring.
+  eapply Rle_trans; [apply Rabs_triang|].
+  rewrite (Rabs_right (1 + tanh x)) by lra. lra.
+Qed.
+
+Ltac pt_tanh_big := first [ apply tanh_big; [lra | interval with (i_prec 200)]
+                          | apply tanh_big_neg; [lra | interval with (i_prec 200)] ].
 
 (* reduce a point to Interval's vocabulary (+ - * / sqrt exp ln sin cos tan
    atan PI); asin/acos go through the standard library's asin_atan and
    acos_asin, whose side conditions -1 < x < 1 are themselves discharged by
    interval *)
 Ltac pt_prepare :=
-  unfold acosh, atanh, log2, log10, tanh, sinh, cosh, arcsinh, Rpower;
+  unfold acosh, atanh, log2, log10, tanh, sinh, cosh, arcsinh, Rpower, tan;
   repeat match goal with
-  | |- context [acos ?x] => rewrite (acos_asin x) by (split; interval with (i_prec 200))
-  | |- context [asin ?x] => rewrite (asin_atan x) by (split; interval with (i_prec 200))
+  | |- context [acos ?x] => rewrite (acos_asin x) by (split; interval with (i_prec 120))
+  | |- context [asin ?x] => rewrite (asin_atan x) by (split; interval with (i_prec 120))
   end;
   unfold Rsqr.
 
-Ltac pt := pt_prepare; interval with (i_prec 200).
+Ltac pt := pt_prepare; first [ interval with (i_prec 90) | interval with (i_prec 300) ].
